@@ -65,7 +65,25 @@ func errText(err error) string {
 	return err.Error()
 }
 
-func cp(b []byte) []byte { return append(make([]byte, 0, len(b)+8), b...) }
+// cp gives an entry its private copy of some bytes, with spare capacity. While arena.on (sequential sub-checks only) every
+// call takes its copies from the start of one and the same recycled buffer, the way a server re-uses a read buffer for
+// one document after the other: the inputs of successive calls then have the same address (and stale bytes from earlier
+// calls behind them), which is what state keyed by the identity instead of the content of an input cannot tell apart.
+var arena struct {
+	on  bool
+	buf []byte
+	off int
+}
+
+func cp(b []byte) []byte {
+	if arena.on && arena.off+len(b)+8 <= len(arena.buf) {
+		s := arena.buf[arena.off : arena.off+len(b) : arena.off+len(b)+8]
+		arena.off += len(b) + 8
+		copy(s, b)
+		return s
+	}
+	return append(make([]byte, 0, len(b)+8), b...)
+}
 
 // chunkReader hands out the input in pieces whose sizes come from prog
 type chunkReader struct {
